@@ -32,7 +32,8 @@ theorem assignmentsToActions_sound (fl : Flags) (o : Orders) (assignments : AMap
         byOut := by intro n f hf; simp at hf
         wf := g0wf
         nodes := fun n hn => hn
-        edges := fun e he => Or.inl he }
+        edges := fun e he => Or.inl he
+        noOutSub := List.Sublist.refl _ }
     have hpf := preprocess_fold_facts fl widths constants assignments known fixed ht g0 hg0c fixed [] _ (by simp) hinit
       (by rw [hpre]; exact hpe')
     rw [hpre] at hpf
